@@ -1221,8 +1221,9 @@ func exchangeServiceInfo(ctx context.Context,
 	mtu -= 5
 
 	// 1000 service info buffered in and out means up to ~1MB of data for
-	// the default MTU. If both queues fill, the device will deadlock. This
-	// should only happen for a poorly behaved owner service.
+	// the default MTU. If more are received from the owner service before the
+	// device gets to process them, TO2 fails. This should only happen for a
+	// poorly behaved owner service.
 	ownerInfo, ownerInfoIn := serviceinfo.NewChunkInPipe(1000)
 
 	// Send initial device info (devmod)
@@ -1268,8 +1269,8 @@ func exchangeServiceInfo(ctx context.Context,
 
 		// Send all device service info and receive all owner service info into
 		// a buffered pipe. Note that if >1000 service info are received from
-		// the owner service without it allowing the device to respond, the
-		// device will deadlock.
+		// the owner service without it allowing the device to respond, TO2
+		// fails.
 		nextOwnerInfo, ownerInfoIn := serviceinfo.NewChunkInPipe(1000)
 		rounds, done, err := exchangeServiceInfoRound(ctx, transport, mtu, deviceInfo, ownerInfoIn, sess)
 		if err != nil {
